@@ -15,7 +15,7 @@ PY_BUILTINS = {"len", "int", "float", "bool", "str", "bytes", "abs", "min", "max
                "enumerate", "zip", "sorted", "list", "tuple", "dict", "set", "sum", "any", "all", "getattr",
                "hasattr", "print", "repr", "divmod", "pow", "hash", "id", "type", "object", "reversed", "iter",
                "next", "callable", "bytearray", "frozenset", "super", "ord", "chr", "hex", "format", "map", "filter"}
-SPEC_FORMS = {"ghost", "old", "implies", "forall", "exists", "raised", "iff", "ite", "uf", "fresh_int", "fresh_real",
+SPEC_FORMS = {"map_has", "map_get", "map_key0", "set_has", "dq_len", "dq_maxlen", "dq_at", "dq_idx", "ghost", "timer_arg", "timer_delay", "old", "implies", "forall", "exists", "raised", "iff", "ite", "uf", "fresh_int", "fresh_real",
               "fresh_bool"}
 EXTERNAL_MODULES = {"math", "time", "threading", "random", "logging", "datetime", "json", "socket", "struct",
                     "select", "copy", "dataclasses", "typing", "enum", "collections", "hashlib", "os", "sys",
@@ -688,6 +688,11 @@ class ExprMixin:
                     raise Unsupported(f"attribute {name} of anonymous object")
                 yield from self.class_attr(st, ob.cls, o, name)
                 return
+            if ob.extra and ob.extra.get("symbolic"):
+                av = self.sym_container_attr(st, o, name)
+                if av is not None:
+                    yield st, av
+                    return
             yield st, BoundV(o, name)
             return
         if isinstance(o, EnumV):
@@ -829,6 +834,17 @@ class ExprMixin:
         if (lo is not None and clo is None) or (hi is not None and chi is None):
             raise Unsupported("symbolic slice bound")
         if isinstance(o, BytesV):
+            if chi is not None and chi >= 0 and (clo is None or clo >= 0) and self.bytes_const_len(o) is None:
+                long_enough = self.bytes_len(o) >= self.intval(chi)
+                if not self.valid(st.pc, long_enough):
+                    # python truncates the slice at the end of the data: split on the length
+                    if self.feasible(st.pc, long_enough):
+                        s1 = st.assume(long_enough)
+                        yield s1, self.bytes_slice(s1, o, clo, chi)
+                    if self.feasible(st.pc, z3.Not(long_enough)):
+                        s2 = st.assume(z3.Not(long_enough))
+                        yield s2, self.bytes_slice(s2, o, clo, None)
+                    return
             yield st, self.bytes_slice(st, o, clo, chi)
         elif isinstance(o, TupleV):
             yield st, TupleV(o.items[clo:chi])
